@@ -192,6 +192,12 @@ def gen_C12(g, tier):
             cs.append(Case('o.c12.rcopy %d %d %s' % (k, n - k, hexes(ang)), 'orc', 'circular-copy-assignment-after-query'))
             cs.append(Case('o.c12.rcopy %d 0 %s' % (n, hexes(ang)), 'orc', 'circular-copy-assignment-after-query'))
             cs.append(Case('o.c12.rassign %d %d %s' % (n, k, hexes(ang)), 'orc', 'circular-assignment-forgets-history'))
+    # an accumulator merged with itself up to 70 times (2^70 entries): counts far beyond any integer type
+    for _ in range(6 if tier == 'quick' else 100):
+        n = g.randint(1, 4); ang = []
+        for _ in range(n): ang += [g.r.uniform(-3, 3), g.choice([1.0, 0.5, g.r.uniform(0.01, 2)])]
+        for k in (g.choice([1, 2, 5]), 31, 32, 33, 40, 64, 70):
+            cs.append(Case('o.c12.doubling %d %d %d %s' % (k, g.randint(0, 1), n, hexes(ang)), 'orc', 'self-merge-%s' % ('to-2^32-and-beyond' if k >= 31 else 'few')))
     return cs
 
 
